@@ -1,25 +1,57 @@
 #![no_main]
-//! C04 (+C03 on valid UTF-8): the fuzzer's bytes drive the proptest strategies through the pass-through RNG,
-//! so every structured case of the property-based check is reachable and coverage-guided.
+//! C04 (+C03 on valid UTF-8). Input layout: [8 bytes: seed of the structured part (filters, headers) through the
+//! proptest strategy] [1 byte: schedule kind] [2 bytes: schedule parameter] [rest: the response body, verbatim].
 use libfuzzer_sys::fuzz_target;
-use rio_verif::fuzzsupport::{from_bytes, report};
-use rio_verif::props::{c03, c04};
+use proptest::strategy::BoxedStrategy;
+use rio_verif::dom::Schedule;
+use rio_verif::fuzzsupport::{from_seed, report, Bytes};
+use rio_verif::props::{c03, c04, c16};
 
-fuzz_target!(|data: &[u8]| {
-    if data.len() < 8 {
+thread_local! {
+    static S04: BoxedStrategy<c04::Case> = c04::strategy();
+    static S03: BoxedStrategy<c03::Case> = c03::strategy();
+}
+
+fuzz_target!(init: { rio_verif::engine::install_panic_hook(); }, |data: &[u8]| {
+    if data.len() < 12 {
         return;
     }
-    if data[0] & 1 == 0 {
-        if let Some(case) = from_bytes(&c04::strategy(), &data[1..]) {
+    let mut b = Bytes::new(data);
+    let seed = &data[..8];
+    b.pos = 8;
+    let kind = b.u8();
+    let param = b.u16() as usize;
+    let body = b.rest();
+    let n = body.len();
+    let schedule = match kind % 6 {
+        0 => Schedule::Whole,
+        1 => Schedule::Bytewise,
+        2 => Schedule::Two(param % (n + 1)),
+        3 => Schedule::Stride(1 + param % 16),
+        4 => Schedule::Cuts(vec![param % (n + 1), (param / 7) % (n + 1), (param / 7) % (n + 1)]),
+        _ => Schedule::Two((param % 8).min(n)),
+    };
+    if kind & 0x80 == 0 {
+        if let Some(mut case) = S04.with(|s| from_seed(s, seed)) {
+            case.body = c16::Case::from_bytes(body.to_vec());
+            case.schedule = schedule;
+            case.fault = None;
             let out = c04::check(&case);
             if let Some(m) = out.failure {
                 report("C04", "bytes", &case, &m);
             }
         }
-    } else if let Some(case) = from_bytes(&c03::strategy(), &data[1..]) {
-        let out = c03::check(&case);
-        if let Some(m) = out.failure {
-            report("C03", "bodies", &case, &m);
+    } else if let Ok(text) = std::str::from_utf8(body) {
+        if n > 300 {
+            return;
+        }
+        if let Some(mut case) = S03.with(|s| from_seed(s, seed)) {
+            case.body = text.to_string();
+            case.schedules = vec![schedule];
+            let out = c03::check(&case);
+            if let Some(m) = out.failure {
+                report("C03", "bodies", &case, &m);
+            }
         }
     }
 });
